@@ -52,6 +52,8 @@ Definition doc_of (f : fragment) : frag_doc :=
   end.
 
 Definition accepted (data : list N) : Prop := exists body, parse_runes true data = Ok (mkP (Some body) []).
+(* the same for the Go string: ParseFile(input, failFast) on bytes *)
+Definition accepted_bytes (input : list N) : Prop := exists body, parse_file input true = Ok (mkP (Some body) []).
 
 (* ---- the same over the syntax tree ParseFile returns (comments dropped by fragmentsToFile, blocks nest) *)
 Inductive tdoc := TBlock (h : frag_doc) (body : list tdoc) | TLeaf (d : frag_doc).
